@@ -4,7 +4,9 @@ E3: TLC enumerates a table of certificate variants (mask: exact / minus one / pl
     bit = n / bit 63 / all / empty; signature: good / wrong message / swapped, dropped, extra
     signer / tampered R, S / old version) shaped against the historical view of every stage of a
     membership history (pledge, accept x3, removal inside a removal window) at boundary
-    timestamps, verified at the same and at later stages; and a memo model (repeated queries while
+    timestamps, verified at the same and at later stages; two-step cases submit one signing act's
+    hash and signature bytes under the genuine mask and under a mask with one signer bit swapped
+    (both orders, same node); and a memo model (repeated queries, genuine and altered masks, while
     the history advances; witnesses show that every component of the memo key is needed).
 E1: every table case is executed on a real kernel.Node (SetupNode over a real BadgerStore,
     generated genesis with known keys, real CoSi signatures): verifyFinalization as is, again
@@ -45,12 +47,21 @@ def scenario_worlds(cases):
                 steps.append({"op": "append", "node": role(a["node"]), "st": a["st"], "ts": a["ts"]})
             for c in sorted((x for x in by_t[t] if x["qs"] == qs), key=lambda x: (x["cs"], x["kind"], x["mv"], x["sv"])):
                 sid = "%d/%d/%s/%s/%s/%s" % (c["cs"], c["t"], role(c["chain"]), c["kind"], c["mv"], c["sv"])
-                steps.append({"op": "query", "sid": sid, "t": c["t"], "chain": role(c["chain"]),
-                              "round": 0 if c["kind"] == "pledging-round0" else 1,
-                              "ver": c["ver"], "msg": c["msg"], "tamper": c["tamper"],
-                              "mask": [i for i, b in enumerate(c["mask"]) if b],
-                              "by": [role(c["roles"][i]) for i, b in enumerate(c["by"]) if b],
-                              "tag": "table cs=%d qs=%d %s/%s expect=%s" % (c["cs"], c["qs"], c["mv"], c["sv"], c["final"])})
+                q = {"op": "query", "sid": sid, "t": c["t"], "chain": role(c["chain"]),
+                     "round": 0 if c["kind"] == "pledging-round0" else 1,
+                     "ver": c["ver"], "msg": c["msg"], "tamper": c["tamper"],
+                     "mask": [i for i, b in enumerate(c["mask"]) if b],
+                     "by": [role(c["roles"][i]) for i, b in enumerate(c["by"]) if b],
+                     "tag": "table cs=%d qs=%d %s/%s expect=%s" % (c["cs"], c["qs"], c["mv"], c["sv"], c["final"])}
+                if c["av"] == "none":
+                    steps.append(q)
+                    continue
+                # two-step case on one node: its own signing act, submitted under the genuine mask and
+                # under the altered mask (same hash, same signature bytes), in the order the case names
+                q["sid"] = sid + "/" + c["av"]
+                alt = dict(q, altmask=[i for i, b in enumerate(c["altmask"]) if b], tag=q["tag"] + " altered-mask " + c["av"])
+                q["tag"] += " genuine-mask " + c["av"]
+                steps += [q, alt] if c["av"] == "after" else [alt, q]
         worlds.append({"id": "scen-t%d" % t, "g": 7, "x": 3, "steps": steps})
     return worlds
 
@@ -71,8 +82,13 @@ def random_world(rng, idx):
         for _ in range(k):
             # resubmission of an existing snapshot (round 0 of a pledging chain only while it pledges)
             again = [q for q in issued if q["chain"][0] == "g" or q["chain"] == pledging]
-            if again and rng.random() < 0.25:
-                steps.append(dict(rng.choice(again)))
+            if again and rng.random() < 0.3:
+                q = dict(rng.choice(again))
+                if rng.random() < 0.4:
+                    q["altv"] = "swap"       # same hash and signature bytes, one signer bit swapped
+                else:
+                    q.pop("altv", None)
+                steps.append(q)
                 continue
             day = tick // 8640
             cands = [-1, 0, 1, rng.randint(0, tick + 20000)]
@@ -136,9 +152,12 @@ def replay(ctx, path):
         if e["ev"] == "Append":
             steps.append({"op": "append", "node": rolename[e["rec"]["n"]], "st": e["rec"]["st"], "ts": e["rec"]["ts"]})
         elif e["ev"] == "Query":
-            steps.append({"op": "query", "sid": e["sid"], "t": e["t"], "chain": rolename[e["chain"]], "round": e["round"],
-                          "ver": e["ver"], "msg": e["msg"], "tamper": e["tamper"], "mask": e["mask"],
-                          "by": [rolename[n] for n in e["by"]], "tag": "replay"})
+            q = {"op": "query", "sid": e["sid"], "t": e["t"], "chain": rolename[e["chain"]], "round": e["round"],
+                 "ver": e["ver"], "msg": e["msg"], "tamper": e["tamper"], "mask": e["mask"],
+                 "by": [rolename[n] for n in e["by"]], "tag": "replay"}
+            if e.get("alt"):        # signature bytes made for sigmask, submitted under mask
+                q["mask"], q["altmask"] = e["sigmask"], e["mask"]
+            steps.append(q)
     world = {"id": reset["w"], "g": len(gen), "x": len(extra), "steps": steps}
     d = ctx.specdir("Membership")
     cpath = os.path.join(ctx.scratch, "cases.json")
@@ -163,6 +182,7 @@ def run(ctx, args):
     e3 = [("MC_CertCache.tla", "MC_CertCache_q.cfg"), ("MC_CertCache.tla", "MC_CertCache_q2.cfg")]
     wit = [("MC_CertCache.tla", "MC_CertCache_wit_nokeys.cfg", "CacheAgrees"),
            ("MC_CertCache.tla", "MC_CertCache_wit_nothr.cfg", "CacheAgrees"),
+           ("MC_CertCache.tla", "MC_CertCache_wit_nomask.cfg", "CacheAgrees"),
            ("MC_Cert.tla", "MC_Cert_wit_WitnessStaleFlip.cfg", "WitnessStaleFlip")]
     if not quick:
         wit += [("MC_CertCache.tla", "MC_CertCache_wit_nosig.cfg", "CacheAgrees")]
@@ -199,6 +219,7 @@ def run(ctx, args):
     ctx.cov["queries"] = len(qs)
     ctx.cov["answers"] = {k: sum(1 for e in qs if e["r3"] == k) for k in ("final", "no", "panic")}
     ctx.cov["resubmitted_after_change"] = sum(1 for e in qs if e["reused"])
+    ctx.cov["altered_mask_submissions"] = sum(1 for e in qs if e.get("alt"))
     ctx.rule = ("every case of the TLC certificate table executed on a real kernel.Node (three verifyFinalization calls "
                 "each: as is, memo hit, empty memo), plus seeded random worlds (history, timestamps, masks, signer subsets, "
                 "forgeries, resubmissions); evaluations = verifyFinalization calls; distinct = distinct (timestamp, chain, "
